@@ -5,6 +5,7 @@ CONSTANT Vals <- V013
 CONSTANT D = 3
 CONSTANT Fns <- FnsUndW
 INVARIANT RefinesDefinition
+INVARIANT NbrEnumerationEqualsDefinition
 INVARIANT PrefixInv
 INVARIANT InUnitInterval
 INVARIANT ZeroWhenNoTriangleOrDegLT2
